@@ -128,18 +128,14 @@ func vPartition(nNodes int) *vPW {
 		}},
 	}
 	pc, err := newPartitionContext(conf, "rm-1", nil, false)
-	if err != nil || pc == nil {
-		vAssert(false, "world: partition could not be created")
-		return w
-	}
+	vAssert(err == nil && pc != nil, "world: partition created")
 	w.pc = pc
 	pc.nodes = &vNodeColl{policy: pc.nodes.GetNodeSortingPolicy()}
 	ids := []string{"node-1", "node-2"}
 	for j := 0; j < nNodes; j++ {
 		n := objects.NewNode(&si.NodeInfo{NodeID: ids[j], SchedulableResource: vResQ(ids[j] + ".cap").ToProto()})
-		if err := pc.AddNode(n); err != nil {
-			vAssert(false, "world: node could not be added")
-		}
+		nerr := pc.AddNode(n)
+		vAssert(nerr == nil, "world: node added")
 		w.nodes = append(w.nodes, n)
 	}
 	return w
@@ -148,9 +144,8 @@ func vPartition(nNodes int) *vPW {
 func (w *vPW) addApp(id string) *objects.Application {
 	app := objects.NewApplication(&si.AddApplicationRequest{ApplicationID: id, QueueName: "root.default", PartitionName: "default"},
 		security.UserGroup{User: "u1", Groups: []string{"g1"}}, w.rec, "rm-1")
-	if err := w.pc.AddApplication(app); err != nil {
-		vAssert(false, "world: application could not be added")
-	}
+	err := w.pc.AddApplication(app)
+	vAssert(err == nil, "world: application added")
 	return app
 }
 
@@ -161,9 +156,8 @@ func nodeInfo(id string, cap *resources.Resource) *si.NodeInfo {
 func (w *vPW) addAppIn(id, queue string) *objects.Application {
 	app := objects.NewApplication(&si.AddApplicationRequest{ApplicationID: id, QueueName: queue, PartitionName: "default"},
 		security.UserGroup{User: "u1", Groups: []string{"g1"}}, w.rec, "rm-1")
-	if err := w.pc.AddApplication(app); err != nil {
-		vAssert(false, "world: application could not be added")
-	}
+	err := w.pc.AddApplication(app)
+	vAssert(err == nil, "world: application added")
 	return app
 }
 
@@ -292,9 +286,8 @@ func (w *vPW) addGangApp(id string) *objects.Application {
 	app := objects.NewApplication(&si.AddApplicationRequest{ApplicationID: id, QueueName: "root.default", PartitionName: "default",
 		GangSchedulingStyle: "Soft", ExecutionTimeoutMilliSeconds: 60000},
 		security.UserGroup{User: "u1", Groups: []string{"g1"}}, w.rec, "rm-1")
-	if err := w.pc.AddApplication(app); err != nil {
-		vAssert(false, "world: application could not be added")
-	}
+	err := w.pc.AddApplication(app)
+	vAssert(err == nil, "world: application added")
 	return app
 }
 
